@@ -35,6 +35,7 @@ func init() {
 			{"C11-R8", "the CA-only exemption and the generator decide on the same field", c11r8},
 			{"C11-R9", "Gateway-API credentials are read from the config cluster", c11r9},
 			{"C11-R10", "a cached authorization answer is used only while it has not expired", c11r10},
+			{"C11-R11", "every ReferenceGrant record is built from scratch", c11r11},
 		},
 	})
 }
@@ -765,4 +766,117 @@ func c11r10(c *Ctx) {
 	c.Check("a cached authorization is reported only after its expiration was looked at", pos, bad == nil,
 		"cachedAuthorization can report a hit on a path that never reads the entry's expiration (neither directly nor by sweeping expired entries): an expired answer - e.g. `allowed` for a gateway whose RBAC permission was revoked - is served until an unrelated identity happens to trigger the sweep")
 	c.Floor(1)
+}
+
+// C11-R11: every grant record is built from scratch. ReferenceGrantsCollection flattens a ReferenceGrant object into one
+// record per (from, to) pair; `AllowAll` ("any name of that kind") is set only for a `to` entry without a name. The
+// record appended in a pass of a loop is either allocated inside the innermost loop that contains the append, or every
+// one of its fields is stored on every path from the start of that pass to the append. A record hoisted out of the loop
+// keeps `AllowAll` from an earlier `to` entry: a grant for one named Secret then matches every Secret of the namespace.
+func c11r11(c *Ctx) {
+	p := c.P
+	pkgGC := "pilot/pkg/config/kube/gatewaycommon"
+	st := p.Struct(pkgGC, "ReferenceGrant")
+	n := 0
+	for _, fn := range p.AllFuncs {
+		if funcPkgPath(fn) != istioMod+"/"+pkgGC || strings.HasSuffix(p.Fset.Position(fn.Pos()).Filename, "_test.go") || isWrapperFn(fn) || len(fn.Blocks) == 0 {
+			continue
+		}
+		// loop headers: blocks with a back edge
+		headers := map[*ssa.BasicBlock]bool{}
+		for _, b := range fn.Blocks {
+			for _, pr := range b.Preds {
+				if b.Dominates(pr) {
+					headers[b] = true
+				}
+			}
+		}
+		eachInstr(fn, func(ins ssa.Instruction) {
+			call, ok := ins.(*ssa.Call)
+			if !ok || !isAppendCall(ins) || len(call.Call.Args) != 2 {
+				return
+			}
+			sl, ok := call.Type().Underlying().(*types.Slice)
+			if !ok || structOf(sl.Elem()) != st || st == nil {
+				return
+			}
+			// the appended element: packed into the varargs array from a load of the record's cell
+			var cell *ssa.Alloc
+			if s, ok := call.Call.Args[1].(*ssa.Slice); ok {
+				if va, ok := s.X.(*ssa.Alloc); ok {
+					for _, r := range *va.Referrers() {
+						ia, ok := r.(*ssa.IndexAddr)
+						if !ok {
+							continue
+						}
+						for _, r2 := range *ia.Referrers() {
+							if stv, ok := r2.(*ssa.Store); ok {
+								if u, ok := stv.Val.(*ssa.UnOp); ok && u.Op == token.MUL {
+									if a, ok := u.X.(*ssa.Alloc); ok {
+										cell = a
+									}
+								}
+							}
+						}
+					}
+				}
+			}
+			if cell == nil {
+				return
+			}
+			// innermost loop containing the append
+			var inner *ssa.BasicBlock
+			for h := range headers {
+				if h.Dominates(call.Block()) && h != call.Block() {
+					// is the append inside the loop (can it reach the header again)?
+					if inner == nil || inner.Dominates(h) {
+						inner = h
+					}
+				}
+			}
+			if inner == nil {
+				return
+			}
+			n++
+			// (a) allocated in the pass
+			inPass := inner.Dominates(cell.Block()) && cell.Block() != inner
+			ok2 := inPass
+			missing := ""
+			if !ok2 {
+				// (b) every field stored on every path of the pass
+				ok2 = true
+				for _, f := range fieldsOf(st) {
+					isSt := func(i ssa.Instruction) bool {
+						s, ok := i.(*ssa.Store)
+						if !ok {
+							return false
+						}
+						if s.Addr == ssa.Value(cell) {
+							return true // whole-record assignment
+						}
+						fa, ok := s.Addr.(*ssa.FieldAddr)
+						return ok && fa.X == ssa.Value(cell) && fieldVar(fa.X.Type(), fa.Field) == f
+					}
+					// from the header's body successor to the append without a store to f
+					for _, su := range inner.Succs {
+						if !su.Dominates(call.Block()) && su != call.Block() {
+							continue
+						}
+						if _, found := pathAvoidingE(su, nil, isSt, func(i ssa.Instruction) bool { return i == ssa.Instruction(call) }, nil, nil); found {
+							ok2 = false
+							missing = f.Name()
+						}
+					}
+				}
+			}
+			det := "the grant record appended here lives outside the loop pass that appends it and not every field is assigned in every pass"
+			if missing != "" {
+				det += " (" + missing + " keeps the value of an earlier pass)"
+			}
+			det += ": `AllowAll` set for a `to` entry without a name survives into the records of later entries, so a ReferenceGrant that names one Secret authorises references to every Secret of the namespace - key material is released for references no grant names"
+			c.Check("every grant record is built from scratch: "+stableFnName(fn), call.Pos(), ok2, det)
+		})
+	}
+	c.Check("grant records appended in loops found", token.NoPos, n >= 1, "no append of a ReferenceGrant record inside a loop found in gatewaycommon")
+	c.Floor(2)
 }
